@@ -1,7 +1,7 @@
 """C04 - cancellation reaches every descendant context and nothing else; one winner.  (DESIGN.md section 4, C04)"""
 from engine.facts import AnalysisBroken, atomic_op, atomic_ops, has_acquire, has_release, is_full_fence
 from engine.rules import (calls, calls_named, atomics_on, every_path_passes, last_member, oname, is_call_to, Defs,
-                          resolve_cond_source, edges_where, dominated_by_edges, lockset, member_accesses, root_of, Summaries)
+                          resolve_cond_source, edges_where, dominated_by_edges, lockset, member_accesses, root_of, Summaries, assignments)
 from rules.common import TBB_SRC
 
 UNITS = ['src/tbb/task_group_context.cpp', 'src/tbb/threading_control.cpp', 'src/tbb/main.cpp', 'src/tbb/governor.cpp',
@@ -24,6 +24,7 @@ EXPLANATION = (
     'over all interleavings of bind/cancel (the epoch argument itself) is NOT decided.')
 EXPLANATION += ' Added after the seeded-change rounds: ' + 'D2 also: the may-have-children hint is cleared only at construction; D3 also: a context list that still holds contexts when its thread goes away must stay reachable for the propagation (violated on the pinned tree: known finding); D4 also: the epoch snapshot is taken from the context list that holds the parent whose flag is copied.'
 EXPLANATION += ' Added in the third session (round-3 seeds and the findings they led to): ' + "D2 also: binding can only raise the cancellation flag, never overwrite a requested cancellation with 0; D4 also: a full fence separates the store of the parent's may-have-children hint from every later read of the parent's state (store-buffering pair with cancel_group_execution)."
+EXPLANATION += ' Added in the sixth (partial) seeding round: ' + 'D3 also: in task_group_context_impl::propagate_task_group_state the climb through the parent chain ends only at the cancelled source or at the root (every other edge leaving the loop is dominated by the ancestor == &src edge).'
 ASSUMPTIONS = ['mutex acquisition (d1::mutex / spin_mutex scoped_lock) is a seq_cst RMW, i.e. a full fence',
                'single threading_control instance at a time (as enforced by g_threading_control)']
 ND = ['the reachability statement over all interleavings of bind/cancel', 'destroy racing propagate beyond lock discipline']
@@ -74,6 +75,7 @@ def run(facts, rep):
     d2_writers(facts, rep)
     d3_propagation(facts, rep)
     d3_orphaned_lists(facts, rep)
+    d3_ancestor_walk_is_complete(facts, rep)
     d4_binding(facts, rep)
     d5_binder(facts, rep)
 
@@ -496,3 +498,83 @@ def d5_binder(facts, rep):
             rep.ob('D5', 'K11', fn, 'task_group_context::my_parent is written only by bind_to_impl/initialize', ok,
                    '%s re-parents a context' % fn.p, ln=node['ln'], key_extra=str(node['ln']))
     rep.floor('D5', 5, 'binder election')
+
+
+def d3_ancestor_walk_is_complete(facts, rep, clause='D3'):
+    """propagate_task_group_state decides for one context whether it descends from the cancelled source by climbing its parent
+    chain.  The climb may end only where the answer is known: at the source (descendant: paint the chain) or at the root (not a
+    descendant).  Any other way out - e.g. "this ancestor already carries the new state" - is wrong: that ancestor may have been
+    painted a moment ago by the very same propagation (its list was visited first), and then the contexts below it, registered with
+    other threads, stay un-cancelled for ever: their bodies keep running and the wait for the group does not end.  Rule: every CFG
+    edge that leaves the parent-chain loop, other than the loop condition itself, is dominated by the `ancestor == &src` edge."""
+    n = 0
+    for fn in facts.get(TGC + 'propagate_task_group_state'):
+        climbs = set()
+        for pos, s, l, r in assignments(fn):
+            ln_, rn = fn.n(fn.strip(l)), fn.n(fn.strip(r))
+            if ln_.get('k') == 'var' and rn.get('k') == 'member' and rn.get('n') == 'my_parent':
+                bn = fn.n(fn.strip(rn.get('base', -1)))
+                for _ in range(3):            # my_parent lives in an anonymous union: one unnamed member in between
+                    if bn.get('k') == 'member' and not bn.get('n'):
+                        bn = fn.n(fn.strip(bn.get('base', -1)))
+                if bn.get('k') == 'var' and bn.get('v') == ln_['v']:
+                    climbs.add(ln_['v'])
+        succ = dict((b, [x for x in blk['succ'] if x is not None]) for b, blk in fn.blocks.items())
+
+        def reach(start, cut=()):
+            seen, work = set(), list(start)
+            while work:
+                b = work.pop()
+                if b in seen:
+                    continue
+                seen.add(b)
+                for si, x in enumerate(fn.blocks[b]['succ']):
+                    if x is not None and (b, si) not in cut:
+                        work.append(x)
+            return seen
+        for b, blk in sorted(fn.blocks.items()):
+            t = blk.get('term')
+            if not t or t.get('k') not in ('ForStmt', 'WhileStmt') or 'c' not in t:
+                continue
+            vs = set(fn.nodes[x].get('v') for x in fn.subtree(t['c']) if fn.nodes[x].get('k') == 'var')
+            v = vs & climbs
+            if not v:
+                continue
+            v = sorted(v)[0]
+            # the source is compared with the climbing variable: `ancestor == &src`
+            def match(a, truth):
+                nd = fn.n(fn.strip(a))
+                if nd.get('k') != 'binop' or nd['op'] not in ('==', '!='):
+                    return False
+                sides = [fn.n(fn.strip(nd['l'])), fn.n(fn.strip(nd['r']))]
+                return any(s_.get('k') == 'var' and s_.get('v') == v for s_ in sides) and \
+                    any(s_.get('k') == 'unop' and s_.get('op') == '&' for s_ in sides) and ((nd['op'] == '==') == truth)
+            def at_root(a, truth):
+                nd = fn.n(fn.strip(a))
+                if nd.get('k') != 'binop' or nd['op'] not in ('==', '!='):
+                    return False
+                for x, y in ((nd['l'], nd['r']), (nd['r'], nd['l'])):
+                    if fn.n(fn.strip(y)).get('null') and any(fn.nodes[z].get('k') == 'var' and fn.nodes[z].get('v') == v for z in fn.subtree(fn.strip(x))):
+                        return (nd['op'] == '==') == truth
+                return False
+            me = edges_where(fn, match)
+            if not me:
+                continue          # an inner loop over the same kind of variable (the painting loop): it has no match test
+            body = set(x for x in reach([blk['succ'][0]]) if b in reach([x]))
+            body.add(b)
+            root_edges = edges_where(fn, at_root)
+            outside_ok = reach([fn.entry], cut=me | root_edges)       # blocks reachable without the source met / the root reached
+            bad = []
+            for x in sorted(body):
+                for si, y in enumerate(fn.blocks[x]['succ']):
+                    if y is None or y in body or (x == b and si == 1) or (x, si) in me or (x, si) in root_edges:
+                        continue          # inside the loop / the loop condition (root reached) / the match itself
+                    if x in outside_ok:
+                        tl = (fn.blocks[x].get('term') or {}).get('ln')
+                        bad.append('line %s' % tl if tl else 'block %s' % x)
+            n += 1
+            rep.ob(clause, 'K4', fn, 'the climb through the parent chain ends only at the cancelled source or at the root', not bad,
+                   'the loop is left at %s without having met the source: an ancestor that merely carries the new state already may have been '
+                   'painted by this same propagation - the contexts below it are never cancelled' % ', '.join(bad), key_extra='ancestor-walk')
+    if n < 1:
+        raise AnalysisBroken('task_group_context_impl::propagate_task_group_state: the parent-chain loop was not found')
